@@ -249,7 +249,12 @@ func (r *Run) Finish() {
 		fmt.Fprintln(os.Stderr, "evidence write:", err)
 		os.Exit(2)
 	}
-	_ = os.Rename(tmp, filepath.Join(dir, r.Prop+".json"))
+	final := filepath.Join(dir, r.Prop+".json")
+	if part := os.Getenv("VERIF_PART"); part != "" {
+		_ = os.MkdirAll(filepath.Join(dir, "parts"), 0o755)
+		final = filepath.Join(dir, "parts", r.Prop+"."+part+".json")
+	}
+	_ = os.Rename(tmp, final)
 	fmt.Printf("%s %s: states=%d transitions=%d evaluations=%d distinct=%d exhaustive=%v violations=%d known=%d wall=%.1fs\n",
 		r.Prop, r.Tier, r.States, r.Transitions, r.Evaluations, len(r.Distinct), r.Exhaustive, v, len(known), wall)
 	if v > 0 {
